@@ -6,8 +6,9 @@
 (* decodes its own body).  Objects (action records):                           *)
 (*   [a |-> "hdr",  cmd, seq]   a request header {Command, Seq}                 *)
 (*   [a |-> "body", cmd, v]     a well-formed body map of command cmd; v = 1:   *)
-(*                              handshake version 1 / the right key, v = 0: an  *)
-(*                              unsupported version / a wrong key               *)
+(*                              handshake version 1 / the right key; v = 0: a   *)
+(*                              wrong key / handshake version 0; handshake v =  *)
+(*                              2, 3: unsupported non-zero versions (2, 2^31-1) *)
 (*   [a |-> "junk"]             a msgpack integer (not a map)                   *)
 (*   [a |-> "close"]            the client hangs up; the harness waits until    *)
 (*                              the server has deregistered the connection      *)
@@ -174,6 +175,10 @@ Send(o) ==
        /\ M' = MonStep(M, o, obs')
   /\ steps' = steps + 1
 
+\* body variants: handshake 1 = version 1 (the only supported one), 0 = version 0, 2 = version 2, 3 = a large
+\* version (2^31-1) -- all three well-formed but unsupported: error reply, the connection stays un-handshaken;
+\* auth 1 = right key, 0 = wrong key; every other command 1 (0 = the same valid body).
+BodyVs(c) == IF c = "handshake" THEN {0, 1, 2, 3} ELSE {0, 1}
 SendHdr(c)  == Send([a |-> "hdr", cmd |-> c, seq |-> steps]) /\ cst' = (IF c \in NoBody THEN "" ELSE c)
 SendBody(v) == cst # "" /\ Send([a |-> "body", cmd |-> cst, v |-> v]) /\ cst' = ""
 SendJunk    == Send([a |-> "junk"]) /\ cst' = ""
@@ -189,7 +194,7 @@ Init == /\ S = NewS(FALSE) /\ M = NewM /\ obs = NoObs /\ last = [a |-> "init"] /
 
 Next == \/ \E k \in BOOLEAN : Conf(k)
         \/ \E c \in Cmds : SendHdr(c)
-        \/ \E v \in {0, 1} : SendBody(v)
+        \/ \E v \in BodyVs(cst) : SendBody(v)
         \/ SendJunk
         \/ Close
 
